@@ -81,18 +81,18 @@ def r18a(ctx):
 
 
 def dzs_contribs(fn, refl, d0="initial_direction"):
-    """ordered list of (method, normalised appended expression, normalised guard or None)"""
+    """ordered list (structural order) of (method, normalised appended expression, normalised guard or None)"""
+    from ..core.astutil import dfs
     out = []
-    for n in ast.walk(fn):
+    for n in dfs(fn):
         if is_call(n, recv="dzs") and n.func.attr in ("append", "extend"):
             g = guards(n, stop=fn)
             guard = None
             if g:
                 t, pol = g[0]
                 guard = (u(t).replace(refl, "R"), pol)
-            out.append((n.lineno, n.func.attr, u(n.args[0]).replace(refl, "R"), guard))
-    out.sort()
-    return [(m, e, g) for _, m, e, g in out]
+            out.append((n.func.attr, u(n.args[0]).replace(refl, "R"), guard))
+    return out
 
 
 def r18b(ctx):
